@@ -1,6 +1,7 @@
 package main
 
 import (
+	"sort"
 	"go/types"
 	"regexp"
 	"strconv"
@@ -94,6 +95,45 @@ var loopCap = regexp.MustCompile(`\(_ re\.loop (\d+) (\d+)\)`)
 func cacheDir() string { return os.Getenv("GOVC_CACHE") }
 
 // Solve runs the portfolio on a script (which must end before check-sat; we append check-sat and model queries).
+// SolveFast: the three main solvers race for a definitive answer within timeoutMs; no fall-back members, no model search.
+func SolveFast(script string, workDir string, name string, timeoutMs int) *SolverResult {
+	full := script + "(check-sat)\n"
+	res := &SolverResult{Script: full, Status: "unknown"}
+	safe := strings.NewReplacer("/", "_", "(", "", ")", "", "*", "P", " ", "", ":", "_", "#", "-", "$", "S").Replace(name)
+	if len(safe) > 120 {
+		h := sha256.Sum256([]byte(name))
+		safe = safe[:120] + hex.EncodeToString(h[:4])
+	}
+	type answer struct {
+		sp solverSpec
+		st string
+		ms int64
+	}
+	racers := []solverSpec{solvers[0], solvers[1], solvers[2]}
+	ch := make(chan answer, len(racers))
+	ctx, cancel := context.WithCancel(context.Background())
+	defer cancel()
+	for _, sp := range racers {
+		sp := sp
+		go func() {
+			st, _, ms := runSolverCtx(ctx, sp, full, workDir, safe, timeoutMs)
+			ch <- answer{sp, st, ms}
+		}()
+	}
+	for k := 0; k < len(racers); k++ {
+		a := <-ch
+		res.Tried = append(res.Tried, fmt.Sprintf("%s:%s:%dms", a.sp.name, a.st, a.ms))
+		if a.ms > res.Ms {
+			res.Ms = a.ms
+		}
+		if a.st == "unsat" || a.st == "sat" {
+			res.Status, res.Solver = a.st, a.sp.name
+			break
+		}
+	}
+	return res
+}
+
 // SolveProbe: a vacuity probe is only looking for a quick `unsat` (inconsistent assumptions); two solvers, 2 s.
 func SolveProbe(script string, workDir string, name string) *SolverResult {
 	full := script + "(check-sat)\n"
@@ -377,6 +417,76 @@ func skolemizeGoal(g *Term) (*Term, []*Term) {
 	return rec(g), ws
 }
 
+var splitMode = 0
+
+// splitCandidate finds, in the skolemised goal  g1 => (g2 => ... (and ... (< w T) ...) => body), an integer witness w with an
+// upper bound T.
+func splitCandidate(goal *Term, ws []*Term) (*Term, *Term) {
+	isW := map[*Term]bool{}
+	for _, w := range ws {
+		if w.Sort == SInt {
+			isW[w] = true
+		}
+	}
+	var look func(t *Term) (*Term, *Term)
+	look = func(t *Term) (*Term, *Term) {
+		switch t.Op {
+		case "and":
+			for _, a := range t.Args {
+				if w, b := look(a); w != nil {
+					return w, b
+				}
+			}
+		case "<":
+			if len(t.Args) == 2 && isW[t.Args[0]] {
+				return t.Args[0], t.Args[1]
+			}
+		}
+		return nil, nil
+	}
+	for t := goal; t != nil && t.Op == "=>" && len(t.Args) == 2; t = t.Args[1] {
+		if w, b := look(t.Args[0]); w != nil {
+			return w, b
+		}
+	}
+	return nil, nil
+}
+
+// ObligationScriptsSplit: the two cases of the last-index split (nil when the goal has no bounded integer witness), each
+// as a list of variants (full context, loop-modular slice, 1-hop and 2-hop slice). The obligation is proved when BOTH
+// cases have an unsat variant.
+func ObligationScriptsSplit(o *Obligation) [][]string {
+	if o.Cover {
+		return nil
+	}
+	var out [][]string
+	for _, m := range []int{1, 2} {
+		var variants []string
+		for _, h := range []int{0, sliceLoop, 1, 2} {
+			if h == sliceLoop && o.LoopFrom == 0 {
+				continue
+			}
+			splitMode, sliceHops = m, h
+			sc, _ := obligationScript(o, true)
+			splitMode, sliceHops = 0, 0
+			if sc == "" {
+				return nil
+			}
+			dup := false
+			for _, v := range variants {
+				if v == sc {
+					dup = true
+				}
+			}
+			if !dup {
+				variants = append(variants, sc)
+			}
+		}
+		out = append(out, variants)
+	}
+	return out
+}
+
 // ObligationScript renders the SMT script for one obligation.
 func ObligationScript(o *Obligation) (string, []string) {
 	return obligationScript(o, true)
@@ -406,11 +516,154 @@ func specSymbols(t *Term, out map[string]bool, seen map[*Term]bool) {
 	}
 }
 
+// ---------- assumption slicing ----------
+// Dropping assumptions is sound for a validity query (it can only make a provable goal unprovable), so an obligation
+// that the solvers do not decide in its full context is tried again on a SLICE of it: the assumptions connected to the
+// goal through shared uninterpreted symbols within a number of hops, ignoring symbols that occur almost everywhere.
+// Only `unsat` answers of sliced queries are used.
+
+var symCache = map[*Term][]string{}
+
+func termSymbols(t *Term) []string {
+	if t == nil {
+		return nil
+	}
+	if r, ok := symCache[t]; ok {
+		return r
+	}
+	set := map[string]bool{}
+	var visit func(x *Term, seen map[*Term]bool)
+	visit = func(x *Term, seen map[*Term]bool) {
+		if x == nil || seen[x] {
+			return
+		}
+		seen[x] = true
+		if x.Op == "" {
+			if _, ok := TS.decls[x.Name]; ok {
+				set[x.Name] = true
+			}
+		} else if _, ok := TS.decls[x.Op]; ok {
+			set[x.Op] = true
+		}
+		for _, a := range x.Args {
+			visit(a, seen)
+		}
+	}
+	visit(t, map[*Term]bool{})
+	var out []string
+	for k := range set {
+		out = append(out, k)
+	}
+	sort.Strings(out)
+	symCache[t] = out
+	return out
+}
+
+// coreOf strips path guards: connectivity is judged on the fact, not on the path condition it holds under (path
+// conditions mention most of the function and would connect everything with everything).
+func coreOf(t *Term) *Term {
+	for t != nil && t.Op == "=>" && len(t.Args) == 2 {
+		t = t.Args[1]
+	}
+	return t
+}
+
+func sliceAsserts(asserts0 []*Term, goal *Term, hops int) []*Term {
+	asserts := make([]*Term, len(asserts0))
+	for i, a := range asserts0 {
+		asserts[i] = coreOf(a)
+	}
+	goal = coreOf(goal)
+	freq := map[string]int{}
+	for _, a := range asserts {
+		for _, s := range termSymbols(a) {
+			freq[s]++
+		}
+	}
+	limit := len(asserts) / 4
+	if limit < 8 {
+		limit = 8
+	}
+	common := func(s string) bool { return freq[s] > limit }
+	rel := map[string]bool{}
+	for _, s := range termSymbols(goal) {
+		rel[s] = true // symbols of the goal always count, also the common ones
+	}
+	in := make([]bool, len(asserts))
+	// assumptions without any rare symbol are general facts (definitions of helper functions, well-formedness of the
+	// heap): always kept
+	for i, a := range asserts {
+		rare := false
+		for _, s := range termSymbols(a) {
+			if !common(s) {
+				rare = true
+				break
+			}
+		}
+		if !rare {
+			in[i] = true
+		}
+	}
+	for h := 0; h < hops; h++ {
+		add := map[string]bool{}
+		for i, a := range asserts {
+			if in[i] {
+				continue
+			}
+			hit := false
+			for _, s := range termSymbols(a) {
+				if rel[s] && (!common(s) || h == 0) {
+					hit = true
+					break
+				}
+			}
+			if hit {
+				in[i] = true
+				for _, s := range termSymbols(a) {
+					if !common(s) {
+						add[s] = true
+					}
+				}
+			}
+		}
+		for s := range add {
+			rel[s] = true
+		}
+	}
+	var out []*Term
+	for i := range asserts {
+		if in[i] {
+			out = append(out, asserts0[i])
+		}
+	}
+	return out
+}
+
+// ObligationScriptSliced: the query with the assumptions sliced to `hops` hops around the goal ("" for covers).
+func ObligationScriptSliced(o *Obligation, hops int) string {
+	if o.Cover || hops == sliceLoop && o.LoopFrom == 0 {
+		return ""
+	}
+	sliceHops = hops
+	defer func() { sliceHops = 0 }()
+	sc, _ := obligationScript(o, true)
+	return sc
+}
+
+var sliceHops = 0
+
+const sliceLoop = -1 // loop-modular slice: entry assumptions + everything since the head of the enclosing loop
+
 func obligationScript(o *Obligation, withExtra bool) (string, []string) {
 	var asserts []*Term
 	if o.exec != nil {
 		asserts = append(asserts, o.exec.globalAssumes...)
-		asserts = append(asserts, o.exec.assumes[:o.NAssume]...)
+		if sliceHops == sliceLoop && o.LoopFrom > 0 && o.LoopFrom >= o.EntryN && o.LoopFrom <= o.NAssume {
+			asserts = append(asserts, o.exec.assumes[:o.EntryN]...)
+			asserts = append(asserts, o.exec.assumes[o.LoopFrom:o.NAssume]...)
+		} else {
+			asserts = append(asserts, o.exec.assumes[:o.NAssume]...)
+		}
 	}
 	if withExtra {
 		asserts = append(asserts, o.Extra...)
@@ -444,12 +697,32 @@ func obligationScript(o *Obligation, withExtra bool) (string, []string) {
 		asserts = kept
 	}
 	named := ReplayTerms(o)
+	if sliceHops > 0 && !o.Cover {
+		asserts = sliceAsserts(asserts, o.Goal, sliceHops)
+		named = nil
+	}
+	if sliceHops == sliceLoop {
+		named = nil
+	}
 	if o.Cover {
 		asserts = append(asserts, o.Goal)
 	} else {
 		// skolemise the outermost universal quantifiers of the goal: reach => forall xs. B  becomes  reach && !B[ws]
 		goal, ws := skolemizeGoal(o.Goal)
 		asserts = append(asserts, Not(goal))
+		if splitMode != 0 {
+			// case split on the last index of a bounded universal goal: w < T  is  w = T-1  or  w < T-1
+			w, bound := splitCandidate(goal, ws)
+			if w == nil {
+				return "", nil
+			}
+			last := Sub(bound, IntLit(1))
+			if splitMode == 1 {
+				asserts = append(asserts, Eq(w, last))
+			} else {
+				asserts = append(asserts, Lt(w, last))
+			}
+		}
 		for i, w := range ws {
 			named = append(named, NamedTerm{fmt.Sprintf("rp_w_%d_%s", i, strings.Trim(strings.NewReplacer("?", "_", "|", "", "!", "_").Replace(w.Name), "_")), w})
 		}
